@@ -28,6 +28,7 @@ type PropSpec struct {
 	Generate   []string // "c13 <worker> <HeaderConst>": pinned posts derived mechanically from the code's header constants
 	Replay     string   // replay oracle family
 	Meta       []string // meta-theorems relied upon
+	CoverAny   map[string]bool // functions whose hypothesis (pinned requires) is meant to make some exits unreachable: vacuity = no exit reachable
 }
 
 func homeDir() string { return envOr("VERIF_HOME", "/verif") }
@@ -85,6 +86,12 @@ func loadProp(id string) (*PropSpec, error) {
 			continue
 		case "sweep":
 			ps.Sweep = true
+			continue
+		case "cover-any":
+			if ps.CoverAny == nil {
+				ps.CoverAny = map[string]bool{}
+			}
+			ps.CoverAny[rest] = true
 			continue
 		case "allfuncs":
 			ps.AllFuncs = append(ps.AllFuncs, rest)
@@ -271,6 +278,11 @@ func runCheck(e *Engine, id, tier string, dir string) (*checkResult, error) {
 			res.genErrs = append(res.genErrs, fmt.Sprintf("gen/lemmas: %v", err))
 		}
 		res.obls = append(res.obls, los...)
+		for l := range lem {
+			if lm := e.specs.Lemmas[l]; lm != nil && lm.Lifted != "" && !e.liftDone[l] {
+				res.genErrs = append(res.genErrs, fmt.Sprintf("gen/%s: lemma %s is used but its `lift` obligations were not generated in this check (add `lift %s(...)` to the function's block)", lm.Lifted, l, l))
+			}
+		}
 	}
 	timeout := 20
 	all := false
@@ -419,9 +431,19 @@ func report(e *Engine, res *checkResult, tier string, seed int, verbose bool) in
 	vacuous := 0
 	covers := 0
 	sortedObls(res.obls)
+	reachable := map[string]bool{}
+	for _, o := range res.obls {
+		if o.Class == "cover" && o.Status != "vacuous" {
+			reachable[o.Func+"|"+o.Case] = true
+		}
+	}
 	for _, o := range res.obls {
 		if o.Class == "cover" {
 			covers++
+			if o.Status == "vacuous" && res.prop.CoverAny[o.Func] && reachable[o.Func+"|"+o.Case] {
+				// the property's hypothesis is meant to exclude this exit; some other exit of the function is reachable
+				continue
+			}
 			if o.Status == "vacuous" {
 				vacuous++
 				res.toolErrs = append(res.toolErrs, "vacuity: "+o.Name+" — exit unreachable under the contract's hypotheses")
